@@ -556,7 +556,7 @@ func genFingerOrder() {
 		"filepath.Base", "filepath.Rel", "filepath.ToSlash", "filepath.Join", "io.CopyBuffer", "xxh3.New", "h.Sum128", "sort.Strings",
 		"execext.ExpandFields", "execext.RunCommand", "config.statusChecker.IsUpToDate",
 		"config.sourcesChecker.IsUpToDate", "NewSourcesChecker", "NewStatusChecker", "t.Name",
-		"strings.TrimSpace", "append")
+		"strings.TrimSpace", "append", "stateFilename", "fmt.Sprintf", "xxh3.HashString", "touchMarker")
 	var swallowed [][2]string
 	for _, f := range [][2]string{
 		{"ChecksumChecker.IsUpToDate", "checksumIsUpToDate"},
@@ -566,6 +566,7 @@ func genFingerOrder() {
 		{"TimestampChecker.IsUpToDate", "timestampIsUpToDate"},
 		{"TimestampChecker.OnError", "timestampOnError"},
 		{"TimestampChecker.timestampFilePath", "timestampPath"},
+		{"stateFilename", "stateFilename"},
 		{"IsTaskUpToDate", "isTaskUpToDate"},
 		{"Globs", "globs"},
 		{"glob", "glob"},
@@ -575,8 +576,11 @@ func genFingerOrder() {
 		var rows [][2]string
 		// the verdict variables of TimestampChecker.IsUpToDate: where they are defined / cleared
 		var defs func(string) bool
-		if f[0] == "TimestampChecker.IsUpToDate" {
-			defs = setOf("upToDate", "generatesExist", "shouldUpdate")
+		switch f[0] {
+		case "TimestampChecker.IsUpToDate":
+			defs = setOf("upToDate", "generatesExist", "shouldUpdate", "markerExists")
+		case "stateFilename":
+			defs = setOf("normalized")
 		}
 		for _, e := range walkSkeletonDefs(fp.funcDecl(f[0]), interesting, defs) {
 			switch e.kind {
@@ -664,8 +668,9 @@ func genFingerOrder() {
 					return true
 				}
 				switch src(ce.Fun) {
-				case "normalizeFilename":
-					key = srcList(ce.Args)
+				case "normalizeFilename", "stateFilename":
+					// which function names the state file, and of what: `stateFilename(t.Name())`
+					key = src(ce.Fun) + "(" + srcList(ce.Args) + ")"
 				case "filepath.Join":
 					var lits []string
 					for _, a := range ce.Args {
